@@ -784,9 +784,37 @@ fn x86_encode(prog: &[X], amd64: bool) -> (Vec<u8>, Vec<usize>) {
     (out, offs)
 }
 
-fn gen_x86(rng: &mut Rng, n: usize) -> Vec<X> {
+/// `run`: start with a branch-free run of exactly that many bytes (so that an instruction boundary falls exactly on,
+/// just before or just after the end of a 64-byte translation window); random programs alone never contain one,
+/// their blocks are a few instructions long
+fn gen_x86(rng: &mut Rng, n: usize, amd64: bool, run: Option<usize>) -> Vec<X> {
     let regs = [0u8, 1, 2, 6, 7]; // eax ecx edx esi edi
     let mut p = Vec::new();
+    if let Some(want) = run {
+        let mut len = 0usize;
+        while len < want {
+            let r = *rng.pick(&regs);
+            let s = *rng.pick(&regs);
+            let x = match rng.below(6) {
+                0 => X::MovImm(r, rng.below(4) as u32),
+                1 => X::AddRR(r, s),
+                2 => X::Inc(r),
+                3 => X::Store(r, (rng.below(16) * 4) as u8),
+                4 => X::Load(r, (rng.below(16) * 4) as u8),
+                _ => X::Nop(rng.range(1, 5) as usize),
+            };
+            let l = x86_len(&x, amd64);
+            if len + l <= want {
+                len += l;
+                p.push(x);
+            } else {
+                let pad = want - len;
+                p.push(X::Nop(pad.min(5)));
+                len += pad.min(5);
+            }
+        }
+    }
+    let skip = p.len();
     for _ in 0..n {
         let r = *rng.pick(&regs);
         let s = *rng.pick(&regs);
@@ -798,8 +826,8 @@ fn gen_x86(rng: &mut Rng, n: usize) -> Vec<X> {
             5 => X::Store(r, (rng.below(16) * 4) as u8),
             6 => X::Load(r, (rng.below(16) * 4) as u8),
             7 => X::Nop(rng.range(1, 5) as usize),
-            8 | 9 => X::Jcc(rng.below(16) as u8, rng.below(n as u64 + 1) as usize, rng.chance(1, 3)),
-            10 => X::Jmp(rng.below(n as u64 + 1) as usize, rng.chance(1, 3)),
+            8 | 9 => X::Jcc(rng.below(16) as u8, rng.below((skip + n) as u64 + 1) as usize, rng.chance(1, 3)),
+            10 => X::Jmp(rng.below((skip + n) as u64 + 1) as usize, rng.chance(1, 3)),
             _ => X::Nop(1),
         });
     }
@@ -895,7 +923,8 @@ fn generate(tier: Tier, rng: &mut Rng, em: &mut Emit) {
                 let amd64 = which == 3;
                 let arch = if amd64 { "amd64" } else { "x86" };
                 let n = *rng.pick(&[3usize, 8, 16, 24, 30, 40]);
-                let prog = gen_x86(rng, n);
+                let run = if rng.chance(1, 3) { Some(*rng.pick(&[59usize, 62, 63, 64, 64, 65, 66, 69, 127, 128, 128, 129])) } else { None };
+                let prog = gen_x86(rng, n, amd64, run);
                 let (code, offs) = x86_encode(&prog, amd64);
                 let st = x86_state(rng, amd64);
                 let has_long = prog.iter().any(|x| matches!(x, X::Jcc(_, _, true) | X::Jmp(_, true)));
@@ -906,7 +935,9 @@ fn generate(tier: Tier, rng: &mut Rng, em: &mut Emit) {
                 // does some instruction straddle a 64-byte window boundary (relative to the function start)?
                 let straddle = offs.windows(2).any(|w| w[0] / 64 != (w[1] - 1) / 64);
                 let win = if code.len() > 64 { "multiwindow" } else { "onewindow" };
-                let cls = format!("{}/{}/{}{}{}", arch, win, if has_back { "back," } else { "" }, if has_long { "long," } else { "" }, if straddle { "straddle" } else { "aligned" });
+                let cls = format!("{}/{}/{}{}{}{}", arch, win, if has_back { "back," } else { "" }, if has_long { "long," } else { "" },
+                    match run { Some(r) if r % 64 == 0 => "run=window,", Some(_) => "run~window,", None => "" },
+                    if straddle { "straddle" } else { "aligned" });
                 em.case(&cls, format!("fnrec {} 0x{:x} {} 0x{:x} m= steps={} | {}", arch, base, bytes_hex(&code), base, steps, st.to_string()));
             }
         }
